@@ -50,6 +50,7 @@ Fixpoint nn_nodes (ft : ftable) (P : params) (inputs_nn : list string) (S : list
         | KPidAgg aggr => String.eqb aggr "sum" && match d_args n with src :: _ => known src | [] => false end
         | KTimeConv num _ => (0 <=? num)%Z && match d_args n with [a] => known a | _ => false end
         | KGrouping => true
+        | KJoin _ _ tgt dflt cmp => match cmp with Some _ => true | None => known tgt && fnn_b dflt end
         end in
       if ok then nn_nodes ft P inputs_nn r (d_name n :: acc) else nn_nodes ft P inputs_nn r acc
   end.
@@ -97,3 +98,100 @@ Proof.
   pose proof (employee_new_monotone r C F G U w big Hc Hw Hb) as M.
   rewrite (employee_new_flat_above_ceiling r C F G U big Hc) in M; [exact M | | |]; unfold big; qlra.
 Qed.
+
+(* ================================================================ *)
+(* node-level analysis with the verified abstract interpreter        *)
+(* (Absint.rule_aval_sound): every node of the graph gets an interval *)
+(* (finite, with optional rational bounds) or ATop (not proved).      *)
+
+Close Scope Qc_scope.
+From GettsimModel Require Import Itv Absint.
+
+(* keep only the interval view of an abstract value *)
+Definition norm (a : aval) : aval := of_oitv (itv_of a).
+
+Definition has_prefix (p s : string) : bool := String.eqb (substring 0 (String.length p) s) p.
+
+(* documented inputs in a valid population: finite; non-negative except rental income and the
+   person pointers (-1 = nobody) *)
+Definition input_aval (data : list string) (c : string) : aval :=
+  if negb (Sign.smem c data) then ATop
+  else if String.eqb c "eink_vermietung_m" then AFin
+  else if has_prefix "p_id_" c then AItv {| lo := Some (qz (-1)); hi := None |}
+  else ANN.
+
+Definition rounding_keeps_fin (P : params) (g name : string) : bool :=
+  match pget g P with
+  | Some gv =>
+      match path_get gv [KStr "rounding"; KStr name] with
+      | Ok (VDict spec) =>
+          match sget "base" spec with
+          | Some b => fin_bv b && negb (match b with VInt 0%Z => true | _ => false end)
+                      && match sget "to_add_after_rounding" spec with Some o => fin_bv o | None => true end
+          | None => false
+          end
+      | _ => false
+      end
+  | None => false
+  end.
+
+Definition round_cls (P : params) (g name : string) (a : aval) : aval :=
+  match itv_of a with
+  | Some i => if nonneg i && rounding_keeps_nonneg P g name then ANN
+              else if rounding_keeps_fin P g name then AFin else ATop
+  | None => ATop
+  end.
+
+Definition node_aval (ft : ftable) (P : params) (data : list string) (acc : list (string * aval)) (n : dnode) : aval :=
+  let get := fun a => match alookup a acc with Some x => x | None => input_aval data a end in
+  if Sign.smem (d_name n) data then input_aval data (d_name n) else    (* a supplied column replaces the node *)
+  match d_kind n with
+  | KRule py _ rd =>
+      match flookup py ft with
+      | Some f =>
+          let l := map (fun a => if is_params_name (fst a)
+                                 then match pget (group_of (fst a)) P with Some v => APar v | None => ATop end
+                                 else get (fst a)) (f_args f) in
+          let r := norm (rule_aval ft f l) in
+          match rd with Some g => round_cls P g (d_name n) r | None => r end
+      | None => ATop
+      end
+  | KGroupAgg aggr =>
+      match d_args n with
+      | [src; _] => if String.eqb aggr "any" || String.eqb aggr "all" then ABool
+                    else if String.eqb aggr "mean" || String.eqb aggr "max" || String.eqb aggr "min" then norm (get src)
+                    else if String.eqb aggr "sum"
+                    then match itv_of (get src) with
+                         | Some i => if nonneg i then AItv {| lo := lo i; hi := None |} else AFin
+                         | None => ATop end
+                    else ATop
+      | [_] => if String.eqb aggr "count" then AItv {| lo := Some (qz 1); hi := None |} else ATop
+      | _ => ATop
+      end
+  | KPidAgg aggr =>
+      if String.eqb aggr "sum"
+      then match d_args n with
+           | src :: _ => match itv_of (get src) with Some i => if nonneg i then ANN else AFin | None => ATop end
+           | [] => ATop end
+      else ATop
+  | KTimeConv num den =>
+      match d_args n with
+      | [a] => match itv_of (get a) with Some i => AItv (iscale (qfrac num den) i) | None => ATop end
+      | _ => ATop
+      end
+  | KGrouping => ANN
+  | KJoin _ _ tgt dflt cmp => match cmp with Some _ => ABool | None => norm (join (get tgt) (APar dflt)) end
+  end.
+
+Fixpoint a_nodes (ft : ftable) (P : params) (data : list string) (S : list dnode) (acc : list (string * aval)) : list (string * aval) :=
+  match S with
+  | [] => acc
+  | n :: r => a_nodes ft P data r ((d_name n, node_aval ft P data acc n) :: acc)
+  end.
+
+Definition nodes_with (f : aval -> bool) (l : list (string * aval)) : list string :=
+  map fst (filter (fun xa => f (snd xa)) l).
+
+Definition show_ob (o : option Qc) : string := match o with Some q => show_q q | None => "*" end.
+Definition show_aval (a : aval) : string :=
+  match itv_of a with Some i => "[" ++ show_ob (lo i) ++ "," ++ show_ob (hi i) ++ "]" | None => "T" end.
